@@ -135,6 +135,9 @@ pub struct HistCfg {
     /// doc store blocks of 48 bytes (every document closes a block: segments with many store blocks) instead of 16 KiB
     #[serde(default)]
     pub tiny_blocks: bool,
+    /// SimDir only: writers accept at most 1000 bytes per write call (short writes, as `io::Write` allows)
+    #[serde(default)]
+    pub short_writes: bool,
 }
 pub fn cfg_strategy(dirs: &'static [DirKind]) -> impl Strategy<Value = HistCfg> {
     (
@@ -144,8 +147,9 @@ pub fn cfg_strategy(dirs: &'static [DirKind]) -> impl Strategy<Value = HistCfg> 
         prop_oneof![3 => Just(None), 1 => Just(Some(true)), 1 => Just(Some(false))],
         prop::sample::select(dirs),
         prop::bool::weighted(0.3),
+        prop::bool::weighted(0.25),
     )
-        .prop_map(|(threads, flush_every, policy, sorted, dir, tiny_blocks)| HistCfg { threads, flush_every, policy, sorted, dir, tiny_blocks })
+        .prop_map(|(threads, flush_every, policy, sorted, dir, tiny_blocks, short_writes)| HistCfg { threads, flush_every, policy, sorted, dir, tiny_blocks, short_writes })
 }
 
 pub struct Fields {
@@ -278,6 +282,9 @@ impl Env {
             }
             DirKind::Sim => {
                 let sd = sim.unwrap_or_default();
+                if cfg.short_writes {
+                    sd.set_write_limit(1000);
+                }
                 let ix = Index::create(sd.clone(), schema, settings).or_fail("INFRA:create")?;
                 (DirHandle::Sim(sd), ix)
             }
